@@ -60,6 +60,22 @@ func goxScenarios() []goxScenario {
 	ur := csvTable("a,g", 10, func(i int) string { return fmt.Sprintf("%d,k%d", i+1, (i*3)%9) })
 	files := map[string]string{"t.csv": t, "u.csv": u}
 	jf := map[string]string{"tl.csv": tl, "ur.csv": ur}
+	// left table whose middle third matches nothing: the chunk of the second of three workers has no match, and
+	// the right rows are matched by the first and third chunk only
+	mid := map[string]string{
+		"tl.csv": csvTable("a,g", 30, func(i int) string {
+			g := "none"
+			if i < 10 || i >= 20 {
+				g = fmt.Sprintf("k%d", i%3)
+			}
+			return fmt.Sprintf("%d,%s", i+1, g)
+		}),
+		"ur.csv": csvTable("a,g", 10, func(i int) string {
+			if i == 7 {
+				return "8,kx" // a right row that no chunk matches
+			}
+			return fmt.Sprintf("%d,k%d", i+1, i%3)
+		})}
 	sc := []goxScenario{
 		{Name: "filter", Files: files, SQL: "SELECT a FROM t WHERE b > 1", CPU: 3},
 		{Name: "select-list", Files: files, SQL: "SELECT a, b * 2 + 1, g || '!' FROM t", CPU: 3},
@@ -84,6 +100,11 @@ func goxScenarios() []goxScenario {
 			}),
 			"ur.csv": csvTable("a,g", 10, func(i int) string { return fmt.Sprintf("%d,k%d", i+1, i%3) })},
 			SQL: "SELECT tl.a, ur.a FROM tl JOIN ur ON tl.g = ur.g", CPU: 3},
+		{Name: "full-join-3-workers-middle-chunk-unmatched", Files: mid, SQL: "SELECT tl.a, ur.a FROM tl FULL JOIN ur ON tl.g = ur.g", CPU: 3},
+		{Name: "right-join-3-workers-middle-chunk-unmatched", Files: mid, SQL: "SELECT tl.a, ur.a FROM tl RIGHT JOIN ur ON tl.g = ur.g", CPU: 3},
+		{Name: "left-join-3-workers-middle-chunk-unmatched", Files: mid, SQL: "SELECT tl.a, ur.a FROM tl LEFT JOIN ur ON tl.g = ur.g", CPU: 3, Thorough: true},
+		{Name: "lateral-join", Files: files, SQL: "SELECT t.a, s.d, s.g FROM t CROSS JOIN LATERAL (SELECT t.a * 10 AS d, u.g FROM u WHERE u.a = t.a) s", CPU: 3},
+		{Name: "lateral-left-join", Files: files, SQL: "SELECT t.a, s.d FROM t LEFT JOIN LATERAL (SELECT t.b + u.c AS d FROM u WHERE u.g = t.g) s ON TRUE", CPU: 2},
 		{Name: "left-join", Files: jf, SQL: "SELECT tl.a, ur.a FROM tl LEFT JOIN ur ON tl.g = ur.g", CPU: 2},
 		{Name: "full-join", Files: jf, SQL: "SELECT tl.a, ur.a FROM tl FULL JOIN ur ON tl.g = ur.g", CPU: 2},
 		{Name: "cross-join", Files: jf, SQL: "SELECT tl.a, ur.a FROM tl CROSS JOIN ur WHERE tl.a + ur.a = 11", CPU: 2, Thorough: true},
